@@ -349,6 +349,14 @@ def run(c, chk):
     # ---- R11.14 / R11.15: what stands behind a qualifier, and behind the last separator
     step_boundaries(c, chk, ex, sec)
     case_folding_by_flag(c, chk)
+    if not isinstance(chk, report.SubCheck):
+        # R11.17: name=title picks the instance the single-level accessor cfg_gettsec() picks, under the same case rule as the parser
+        # used when it stored the section (all title comparisons fold case by the same flag words: rule R9.3 of C09)
+        from . import c09 as _c09t
+        chk.rule('R11.17', 'a title qualifier is compared under the same case rule as every other title comparison (rule R9.3 of C09)')
+        sub9 = report.SubCheck(chk, 'R11.17', 'C09', only=('R9.3',))
+        _c09t.run(c, sub9)
+        sub9.done('title comparisons')
 
     # ---- R11.13: the name looked up for a step is the whole step
     whole_step_looked_up(c, chk, ex, sec)
